@@ -17,7 +17,7 @@ def View.coreS : View → Bool
   | .show _ a b => a.coreS && b.coreS
   | .forKeyed _ _ => true
   | .scope _ _ _ => false
-  | .forRows _ _ _ => false
+  | .forRows _ _ _ _ => false
 
 /-- `m` is the memo of a `Show` over the condition `c` -/
 def ShowMemo (K : Nat) (st : St) (m : Nat) (c : Expr) : Prop :=
@@ -81,7 +81,7 @@ theorem GoodM.map {P P' : EP} {Q Q' : Nat → Expr → Prop} : ∀ (v : View) (t
     cases t <;> simp only [GoodM] at h ⊢
     next e sel' lists' ks texts => exact ⟨h.1, h.2.1, hm e _ _ (by simp [effsOf]) h.2.2.1, h.2.2.2⟩
   | scope sid d kid _ => intro t h _ _; cases t <;> simp only [GoodM] at h
-  | forRows sel lists row _ => intro t h _ _; cases t <;> simp only [GoodM] at h
+  | forRows en sel lists row _ => intro t h _ _; cases t <;> simp only [GoodM] at h
 
 theorem GoodM.viewOf {P : EP} {Q : Nat → Expr → Prop} : ∀ (v : View) (t : RState), GoodM P Q v t →
     RView.viewOf t = v := by
@@ -104,7 +104,7 @@ theorem GoodM.viewOf {P : EP} {Q : Nat → Expr → Prop} : ∀ (v : View) (t : 
     simp [RView.viewOf, h.1, h.2.1, h.2.2.1]
   | forKeyed sel lists => intro t h; cases t <;> simp only [GoodM] at h; simp [RView.viewOf, h.1, h.2.1]
   | scope sid d kid _ => intro t h; cases t <;> simp only [GoodM] at h
-  | forRows sel lists row _ => intro t h; cases t <;> simp only [GoodM] at h
+  | forRows en sel lists row _ => intro t h; cases t <;> simp only [GoodM] at h
 
 theorem GoodM.locals_nil {P : EP} {Q : Nat → Expr → Prop} : ∀ (v : View) (t : RState), GoodM P Q v t →
     t.locals = [] := by
@@ -135,7 +135,7 @@ theorem GoodM.locals_nil {P : EP} {Q : Nat → Expr → Prop} : ∀ (v : View) (
       | false => exact ihb inner (h.2.2.2.2.2.2.2 hl)
   | forKeyed sel lists => intro t h; cases t <;> simp only [GoodM] at h; rfl
   | scope sid d kid _ => intro t h; cases t <;> simp only [GoodM] at h
-  | forRows sel lists row _ => intro t h; cases t <;> simp only [GoodM] at h
+  | forRows en sel lists row _ => intro t h; cases t <;> simp only [GoodM] at h
 
 /-- bounds of the effects of a tree whose effects exist -/
 theorem GoodM.bound {K : Nat} {st : St} {Q : Nat → Expr → Prop} : ∀ (v : View) (t : RState),
@@ -191,7 +191,7 @@ theorem GoodM.bound {K : Nat} {st : St} {Q : Nat → Expr → Prop} : ∀ (v : V
     next e' sel' lists' ks texts =>
       simp only [effsOf, List.mem_singleton] at he; subst he; exact ⟨h.2.2.1.1, h.2.2.1.2.1⟩
   | scope sid d kid _ => intro t h _ _; cases t <;> simp only [GoodM] at h
-  | forRows sel lists row _ => intro t h _ _; cases t <;> simp only [GoodM] at h
+  | forRows en sel lists row _ => intro t h _ _; cases t <;> simp only [GoodM] at h
 
 /-- a tree held by the task of a dropped effect -/
 structure ZTreeM (K : Nat) (st : St) (h : RState) : Prop where
@@ -304,7 +304,7 @@ theorem held_okM {K : Nat} {st : St} : ∀ (v : View) (t : RState),
       subst hz
       exact ⟨by simp [effsOf], fun h' hh => by cases hh⟩
   | scope sid d kid _ => intro t h _ _ _ _; cases t <;> simp only [GoodM] at h
-  | forRows sel lists row _ => intro t h _ _ _ _; cases t <;> simp only [GoodM] at h
+  | forRows en sel lists row _ => intro t h _ _ _ _; cases t <;> simp only [GoodM] at h
 
 /-- every effect of a tree carries its predicate -/
 theorem GoodAttrP.effP {P : EP} : ∀ {a : Attr} {s : AState}, GoodAttrP P a s → ∀ e ∈ s.effs, ∃ x cur, P e x cur := by
@@ -377,7 +377,7 @@ theorem GoodM.effP {P : EP} {Q : Nat → Expr → Prop} : ∀ (v : View) (t : RS
     next e' sel' lists' ks texts =>
       simp only [effsOf, List.mem_singleton] at he; subst he; exact ⟨_, _, h.2.2.1⟩
   | scope sid d kid _ => intro t h _ _; cases t <;> simp only [GoodM] at h
-  | forRows sel lists row _ => intro t h _ _; cases t <;> simp only [GoodM] at h
+  | forRows en sel lists row _ => intro t h _ _; cases t <;> simp only [GoodM] at h
 
 theorem GoodAttrsP.wf_extM {K : Nat} {A : Nat → Prop} {st st' : St} {as : List Attr} {ss : List AState}
     (h : GoodAttrsP (EffWf K st) as ss) (hx : ExtM K A st st') : GoodAttrsP (EffWf K st') as ss :=
